@@ -332,6 +332,7 @@ def plan(tier, seed):
     n = 16 * 25 if tier == "quick" else 16 * 500
     items = [["part", i] for i in range(n)] + [["score", i] for i in range(n // 2)] + [["inverse", i] for i in range(n // 2)]
     items += [["inverse-part", i] for i in range(n // 4)]
+    items += [["far", i] for i in range(n // 25)]
     from workloads import corpora
     items += [["fixture", p] for p in corpora.score_files(limit=16 if tier == "quick" else None)]
     return items
@@ -411,6 +412,32 @@ def run_item(ctx, item):
         ctx.case(["score", item[1], form, unique, sorted(k for k, v in opts.items() if v)], len(set(divs)) > 1, cls="score",
                  sample={"divisions": divs, "lcm": lcm, "form": form, "unique_id_per_part": unique})
         ctx.state(f"score:{form}:{unique}:{lcm not in divs}:{len(parts)}")
+    elif kind == "far":
+        # long pieces in fine divisions that do not divide one another: after rescaling to the least common multiple the
+        # positions are large numbers (beyond 2**24 divisions)
+        rng = ctx.rng("far", item[1])
+        import partitura.score as S
+        pairs = [(768, 10080), (960, 1001), (480, 10080, 7), (1024, 945)]
+        divs = list(rng.choice(pairs))
+        rng.shuffle(divs)
+        lcm = math.lcm(*divs)
+        n_q = rng.choice([40, 250, 400]) if lcm > 50000 else 400
+        parts = []
+        for pi, q in enumerate(divs):
+            p_ = S.Part(f"P{pi + 1}", quarter_duration=q)
+            p_.add(S.TimeSignature(4, 4), 0)
+            quarters = sorted(set([0, 1] + [rng.randrange(0, n_q) for _ in range(6)] + [n_q - 2, n_q - 1]))
+            for k_, qt in enumerate(quarters):
+                for pitch_i in range(rng.choice([1, 2, 3])):
+                    step = "CDEFGAB"[(k_ + 2 * pitch_i + pi) % 7]
+                    p_.add(S.Note(step, 3 + pitch_i, None, id=f"p{pi}n{k_}_{pitch_i}", voice=1, staff=1), qt * q, (qt + 1) * q)
+            for m in range((n_q + 3) // 4):
+                p_.add(S.Measure(number=m + 1), 4 * m * q, 4 * (m + 1) * q)
+            parts.append(p_)
+        sc = S.Score(parts, id="far")
+        ctx.try_call(sc.note_array, unique_id_per_part=rng.random() < 0.5)
+        ctx.case(["far", item[1], divs, n_q], n_q * lcm >= 2 ** 24, cls="score-far-positions",
+                 sample={"divisions": divs, "lcm": lcm, "quarters": n_q})
     elif kind == "inverse-part":
         # the inverse direction fed with the table of a real part: both kinds of time columns, with the time-signature
         # columns (any meters) or without them (then beats must be quarters: x/4 meters only)
